@@ -10,41 +10,27 @@ use wfv::{
     hex, Finish, Rng, Run, State, J,
 };
 
-/// the model reader with a position counter (only successful primitive reads advance it)
+/// The model is the SliceReader itself, driven directly (a wrapper would replace the reader's own versions of the
+/// provided trait methods by the trait defaults). Its position is measured from outside: the number of bytes it
+/// can still deliver is the largest k for which its look-ahead check succeeds.
 struct Model<'a> {
     inner: SliceReader<'a>,
     pos: usize,
+    len: usize,
 }
-impl<'a> ByteReader for Model<'a> {
-    fn read_u8(&mut self) -> Result<u8, DeserializationError> {
-        let r = self.inner.read_u8();
-        if r.is_ok() {
-            self.pos += 1;
+impl<'a> Model<'a> {
+    fn update_position(&mut self) {
+        let (mut lo, mut hi) = (0usize, self.len);
+        // invariant: check_eor(lo) is Ok; find the largest such value <= len
+        while lo < hi {
+            let mid = lo + (hi - lo + 1) / 2;
+            if self.inner.check_eor(mid).is_ok() {
+                lo = mid;
+            } else {
+                hi = mid - 1;
+            }
         }
-        r
-    }
-    fn peek_u8(&self) -> Result<u8, DeserializationError> {
-        self.inner.peek_u8()
-    }
-    fn read_slice(&mut self, len: usize) -> Result<&[u8], DeserializationError> {
-        let r = self.inner.read_slice(len);
-        if r.is_ok() {
-            self.pos += len;
-        }
-        r
-    }
-    fn read_array<const N: usize>(&mut self) -> Result<[u8; N], DeserializationError> {
-        let r = self.inner.read_array::<N>();
-        if r.is_ok() {
-            self.pos += N;
-        }
-        r
-    }
-    fn check_eor(&self, num_bytes: usize) -> Result<(), DeserializationError> {
-        self.inner.check_eor(num_bytes)
-    }
-    fn has_more_bytes(&self) -> bool {
-        self.inner.has_more_bytes()
+        self.pos = self.len - lo;
     }
 }
 
@@ -224,7 +210,7 @@ fn run_history(i: u64, rng: &mut Rng, st: &mut State) {
     let mut src = ChunkedSource::new(data.clone(), sched.clone());
     let stats = src.stats.clone();
     let mut adapter = ReadAdapter::new(&mut src);
-    let mut model = Model { inner: SliceReader::new(&data), pos: 0 };
+    let mut model = Model { inner: SliceReader::new(&data), pos: 0, len: data.len() };
     let nops = rng.range(1, 200);
     let mut hist: Vec<String> = Vec::new();
     let mut strict = true;
@@ -244,8 +230,11 @@ fn run_history(i: u64, rng: &mut Rng, st: &mut State) {
         let mpos = model.pos;
         let op = gen_op(rng, data.len() - mpos.min(data.len()));
         hist.push(format!("{op:?}"));
-        let rm = match catch(|| apply(&mut model, &op)) {
-            Ok(r) => r,
+        let rm = match catch(|| apply(&mut model.inner, &op)) {
+            Ok(r) => {
+                model.update_position();
+                r
+            },
             Err(p) => {
                 // the in-memory reader itself must not panic either
                 st.violation(format!("slice-reader-panic:{}:{}", opname(&op), p.sig), J::obj(vec![("op", J::s(format!("{op:?}"))), ("panic", J::s(p.msg)), ("stream_len", J::i(data.len())), ("position", J::i(mpos))]));
